@@ -66,6 +66,9 @@ ESCROW_FAMILIES = {
               DepositChoices=[0, 1, 3, 4], AmountChoices=[2], RateChoices=[1, 2], PayOSeqs=[1], Gaps=[1, 2], MaxHeight=5, InitCoins=6),
     "E3": dict(Tenants=["t1"], Providers=["p1", "p2", "p3"], Auditors=[], DSeqs=[1], GSeqs=[1], OSeqs=[1], MinDeposit=0, BidMinDeposit=0,
                DepositChoices=[0, 2, 5, 7], AmountChoices=[1, 3], RateChoices=[1, 2, 3], PayOSeqs=[1], Gaps=[1, 2, 3], MaxHeight=7, InitCoins=12),
+    # three concurrent payees, small (quick tier): order-dependent even distribution of the overdraft remainder
+    "E3q": dict(Tenants=["t1"], Providers=["p1", "p2", "p3"], Auditors=[], DSeqs=[1], GSeqs=[1], OSeqs=[1], MinDeposit=0, BidMinDeposit=0,
+                DepositChoices=[5], AmountChoices=[], RateChoices=[1, 2], PayOSeqs=[1], Gaps=[1, 2], MaxHeight=3, InitCoins=5),
     # simulation only: larger amounts, two payment slots per provider
     "EL": dict(Tenants=["t1"], Providers=["p1", "p2", "p3"], Auditors=[], DSeqs=[1], GSeqs=[1], OSeqs=[1, 2], MinDeposit=0, BidMinDeposit=0,
                DepositChoices=[0, 5, 17, 40, 100], AmountChoices=[1, 7, 30], RateChoices=[1, 2, 3, 7, 10], PayOSeqs=[1, 2],
@@ -74,10 +77,13 @@ ESCROW_FAMILIES = {
 FAMILIES.update(ESCROW_FAMILIES)
 
 # which families matter for which property (quick tier); thorough runs all of them
-QUICK = {"C01": ["SQ1", "SQ3", "A", "E"], "C02": ["E", "A", "SQ1"], "C03": ["SQ1", "SQ2", "S", "E"], "C04": ["SQ1", "SQ2", "SQ3", "A"],
+QUICK = {"C01": ["SQ1", "SQ3", "A", "E"], "C02": ["E", "E3q", "A", "SQ1"], "C03": ["SQ1", "SQ2", "S", "E"], "C04": ["SQ1", "SQ2", "SQ3", "A"],
          "C05": ["SQ1", "SQ2", "SQ3", "S"], "C06": ["B", "R", "SQ2"], "C07": ["R", "SQ1"], "C08": ["RX", "R"],
          "C16": ["SQ1", "SQ2", "SQ3", "R"]}
-EXHAUSTIVE = {"SX", "SQ1", "SQ2", "SQ3", "RX", "E", "E3"}
+THOROUGH = {"C01": ["SX", "E", "EL", "S", "A", "B"], "C02": ["SX", "E", "E3q", "EL", "A", "S"], "C03": ["SX", "E", "EL", "S", "A"],
+            "C04": ["SX", "SQ3", "S", "A", "B"], "C05": ["SX", "SQ3", "S", "A", "B"], "C06": ["SX", "RX", "E", "B", "R", "S"],
+            "C07": ["SX", "RX", "R", "S", "A"], "C08": ["RX", "SX", "R"], "C16": ["SX", "RX", "SQ3", "S", "A", "R", "B"]}
+EXHAUSTIVE = {"SX", "SQ1", "SQ2", "SQ3", "RX", "E", "E3", "E3q"}
 PAR = max(2, min(8, vlib.NCPU // 2))     # concurrent harness processes / J3 JVMs
 ROUNDTRIPS = 3        # per harness shard: states at which the genesis export/import round trip is recorded
 NODE_CAP_QUICK = 80000
@@ -329,14 +335,11 @@ def run(pid, tier, seed, replay):
     thorough = tier == "thorough"
     plans = []
     if thorough:
-        plans.append(("SX", False, 0, 0, 0))            # exhaustive: every state, whole alphabet at every state
-        if pid in ("C08", "C06", "C07", "C16"):
-            plans.append(("RX", False, 0, 0, 0))
-        if pid in ("C01", "C02", "C03", "C06", "C07"):
-            plans.append(("E", False, 0, 0, 0))
-            plans.append(("EL", True, 320, 40, 1500))
-        for f in ("S", "A", "B", "R"):
-            plans.append((f, True, 320, 32, 1500))
+        for f in THOROUGH[pid]:
+            if f in EXHAUSTIVE:
+                plans.append((f, False, 0, 0, 0))       # every state, every successful transition, whole alphabet at every state
+            else:
+                plans.append((f, True, 320, 40 if f == "EL" else 32, 1500))
     else:
         for f in QUICK[pid]:
             if f in EXHAUSTIVE:
